@@ -678,6 +678,10 @@ def run(model, rep, tier):
     rep.unit('hasher_functions', len(funcs))
     if len(funcs) < 12:
         raise AnalysisError(f'only {len(funcs)} hasher functions discovered, expected at least 12')
+    from rules import round5 as _r5
+    rep.rule('R17.10', 'nutils_hash is not memoised by Python equality; the dataclass branch feeds every field; fresh loop ids are drawn in sorted order')
+    _r5.check_hash_not_memoised(model, rep, 'R17.10')
+    _r5.check_fresh_ids_in_order(model, rep, 'R17.10')
     check_determinism(model, rep, funcs)
     check_prefix_free(model, rep, funcs)
     check_branches(model, rep)
@@ -685,6 +689,7 @@ def run(model, rep, tier):
     check_canonical(model, rep)
     check_consumers(model, rep)
     check_array_identity(model, rep)
+    _r5.check_dataclass_fields_all(model, rep, 'R17.10')
     rep.rule('R17.9', 'every name loaded in types.py resolves (symtable)')
     from rules import names as _names
     _names.check(model, rep, 'R17.9', ('types',), 45)
